@@ -31,6 +31,7 @@ import (
 	NoKV "github.com/feichai0017/NoKV"
 	"github.com/feichai0017/NoKV/kv"
 	"github.com/feichai0017/NoKV/utils"
+	"github.com/feichai0017/NoKV/vfs"
 
 	"verif/harness/hlib"
 )
@@ -51,6 +52,9 @@ func cfgFlag(key string) string {
 	}
 	return ""
 }
+
+// manifestFault = 1: the next write to the MANIFEST file fails (once)
+var manifestFault int32
 
 func openDB(dir string, kv map[string]int) *NoKV.DB {
 	opt := NoKV.NewDefaultOptions()
@@ -82,6 +86,19 @@ func openDB(dir string, kv map[string]int) *NoKV.DB {
 	opt.WriteBatchMaxCount = kv["wbc"]
 	opt.WriteBatchMaxSize = int64(kv["wbs"])
 	opt.ValueThreshold = int64(kv["vt"])
+	if kv["l0"] > 0 {
+		// throttle-liveness cases: real L0 watermarks, and a file system that can fail one
+		// manifest write on request
+		opt.NumLevelZeroTables = kv["l0"]
+		pol := vfs.NewFaultPolicy()
+		pol.SetHook(func(op vfs.Op, path string) error {
+			if op == vfs.OpFileWrite && strings.Contains(path, "MANIFEST") && atomic.CompareAndSwapInt32(&manifestFault, 1, 0) {
+				return errors.New("injected manifest write fault")
+			}
+			return nil
+		})
+		opt.FS = vfs.NewFaultFSWithPolicy(vfs.OSFS{}, pol)
+	}
 	db := NoKV.Open(opt)
 	// the harness owns the L0 throttle: no compaction cycle (each starts with AdjustThrottle)
 	db.VerifQueuePauseCompaction()
@@ -89,6 +106,20 @@ func openDB(dir string, kv map[string]int) *NoKV.DB {
 		time.Sleep(100 * time.Microsecond)
 	}
 	return db
+}
+
+// inRequestWait counts goroutines blocked in (*request).Wait: calls whose request is queued or
+// batched and not yet acknowledged.
+func inRequestWait() int {
+	buf := make([]byte, 1<<20)
+	buf = buf[:runtime.Stack(buf, true)]
+	n := 0
+	for _, g := range bytes.Split(buf, []byte("\n\n")) {
+		if bytes.Contains(g, []byte("NoKV.(*request).Wait(")) && bytes.Contains(g, []byte("sync.(*WaitGroup).Wait(")) {
+			n++
+		}
+	}
+	return n
 }
 
 func inCompactionCycle() bool {
@@ -113,6 +144,8 @@ func classify(err error) string {
 	switch {
 	case err == nil:
 		return "ok"
+	case strings.HasPrefix(err.Error(), "writeRequests"):
+		return "ioerr" // the commit pipeline failed this request (applyRequests)
 	case errors.Is(err, utils.ErrEmptyKey):
 		return "emptykey"
 	case errors.Is(err, utils.ErrHotKeyWriteThrottle):
@@ -191,11 +224,17 @@ type seqCase struct {
 	atClose  map[int]bool
 	asisRace bool
 	timeout  time.Duration // watchdog per call
+	held     bool          // the harness holds db.Lock(): the commit worker is parked in applyRequests
+	openKV   map[string]int
 	mt       int           // MemTableSize of a small-memtable case, else 0
 	dead     bool          // a call never returned: the commit worker is gone, nothing else will
 }
 
 func (c *seqCase) cleanup() {
+	if c.db != nil && c.held {
+		c.db.Unlock()
+		c.held = false
+	}
 	if c.db != nil && c.dead {
 		c.db = nil // Close would hang as well; the process is a child that exits now
 	}
@@ -245,6 +284,15 @@ func (c *seqCase) wait(slot int) string {
 		default:
 		}
 		if c.throttle && !c.closed && inThrottleLoop() >= len(c.calls) {
+			select {
+			case r := <-ch:
+				delete(c.calls, slot)
+				return c.canon(slot, r)
+			default:
+			}
+			return "pending"
+		}
+		if c.held && !c.closed && inRequestWait() >= len(c.calls) {
 			select {
 			case r := <-ch:
 				delete(c.calls, slot)
@@ -323,6 +371,8 @@ func (e *engine) Exec(ops []string) (out []string) {
 		}
 		c.dir = dir
 		c.db = openDB(dir, kv)
+		c.openKV = kv
+		c.held = false
 		c.timeout = callTimeout
 		c.mt = kv["mt"]
 		if kv["mt"] > 0 || kv["mtzero"] == 1 {
@@ -339,7 +389,7 @@ func (e *engine) Exec(ops []string) (out []string) {
 		}
 		if c.db == nil {
 			switch f[0] {
-			case "set", "del", "get", "throttle", "close":
+			case "set", "del", "get", "throttle", "close", "hold", "release", "poison", "flush", "reopen":
 				open(parseKV(nil)) // a case without an `open` line runs on default options, like the model
 			}
 		}
@@ -408,6 +458,150 @@ func (e *engine) Exec(ops []string) (out []string) {
 			if *prop == "C37" && kind == "get" && c.closed && len(k) > 0 && out[i] != "stuck" && !strings.HasPrefix(out[i], "panic") {
 				out[i] = "returned" // C37 is about returning; what a Get after Close answers is C34's business
 			}
+		case "adjust":
+			if c.db == nil || c.openKV["l0"] == 0 {
+				out[i] = "needs-open" // only meaningful after `open l0=…`
+				continue
+			}
+			if c.closed {
+				out[i] = "bad-op"
+				continue
+			}
+			c.db.VerifQueueAdjustThrottle()
+			if c.db.VerifQueueBlocked() {
+				c.throttle = true
+				out[i] = "on"
+			} else {
+				c.throttle = false
+				c.drain()
+				out[i] = "off"
+			}
+		case "compact":
+			if c.db == nil || c.openKV["l0"] == 0 {
+				out[i] = "needs-open"
+				continue
+			}
+			if c.closed || len(f) != 2 || f[1] != "fail" {
+				out[i] = "bad-op"
+				continue
+			}
+			atomic.StoreInt32(&manifestFault, 1)
+			res, err := c.db.VerifLSM().VerifCompact("l0move")
+			atomic.StoreInt32(&manifestFault, 0)
+			switch {
+			case err != nil && strings.Contains(err.Error(), "injected manifest write fault"):
+				out[i] = "failed"
+			case err != nil:
+				out[i] = "err:" + strings.ReplaceAll(err.Error(), " ", "_")
+			default:
+				out[i] = res // "ok" (the fault was not hit) or "nothing"
+			}
+		case "drainl0":
+			if c.db == nil || c.openKV["l0"] == 0 {
+				out[i] = "needs-open"
+				continue
+			}
+			if c.closed {
+				out[i] = "bad-op"
+				continue
+			}
+			out[i] = "undrained"
+			for n := 0; n < 64; n++ {
+				l0, _, _, _ := c.db.VerifLSM().VerifCounts(0)
+				if l0 <= c.openKV["l0"] {
+					out[i] = "drained"
+					break
+				}
+				res, err := c.db.VerifLSM().VerifCompact("l0move")
+				if err != nil {
+					out[i] = "err:" + strings.ReplaceAll(err.Error(), " ", "_")
+					break
+				}
+				if res == "nothing" {
+					break
+				}
+			}
+		case "hold":
+			if c.db == nil || c.closed || c.held {
+				out[i] = "bad-op"
+				continue
+			}
+			c.db.Lock()
+			c.held = true
+			out[i] = "ok"
+		case "release":
+			if c.held {
+				c.db.Unlock()
+				c.held = false
+			}
+			c.drain()
+			out[i] = "ok"
+		case "poison":
+			if c.db == nil || len(f) != 2 {
+				out[i] = "bad-op"
+				continue
+			}
+			slot, _ := strconv.Atoi(f[1])
+			if _, busy := c.calls[slot]; busy {
+				out[i] = "busy"
+				continue
+			}
+			if _, busy := c.parked[slot]; busy {
+				out[i] = "busy"
+				continue
+			}
+			ch := make(chan string, 1)
+			db := c.db
+			go func() {
+				defer func() {
+					if r := recover(); r != nil {
+						ch <- classifyPanic(r)
+					}
+				}()
+				ch <- classify(db.VerifQueueRawWrite(nil, []byte{0x78}))
+			}()
+			c.calls[slot] = ch
+			out[i] = c.wait(slot)
+		case "flush":
+			if c.db != nil && !c.closed {
+				l := c.db.VerifLSM()
+				l.VerifRotate()
+				for {
+					more, err := l.VerifFlushOldest()
+					if err != nil {
+						out[i] = "err:" + strings.ReplaceAll(err.Error(), " ", "_")
+						break
+					}
+					if !more {
+						break
+					}
+				}
+			}
+			if out[i] == "" {
+				out[i] = "ok"
+			}
+		case "reopen":
+			if c.db == nil {
+				out[i] = "bad-op"
+				continue
+			}
+			if len(c.calls) > 0 {
+				out[i] = "busy"
+				continue
+			}
+			if !c.closed {
+				if c.throttle {
+					c.db.VerifQueueThrottle(false)
+				}
+				if err := c.db.Close(); err != nil {
+					out[i] = classify(err)
+					continue
+				}
+			}
+			c.db = openDB(c.dir, c.openKV)
+			c.throttle, c.closed, c.held = false, false, false
+			c.parked, c.atClose = map[int]string{}, map[int]bool{}
+			out[i] = "ok"
 		case "await":
 			slot, _ := strconv.Atoi(f[1])
 			if r, ok := c.parked[slot]; ok {
@@ -443,6 +637,10 @@ func (e *engine) Exec(ops []string) (out []string) {
 			if c.db == nil {
 				out[i] = "bad-op"
 				continue
+			}
+			if c.held { // Close is never issued with the test's own lock held
+				c.db.Unlock()
+				c.held = false
 			}
 			for s := range c.calls {
 				c.atClose[s] = true
@@ -496,6 +694,12 @@ func (e *engine) Gen(r *hlib.Rand, tier string) []string {
 		}
 		return []string{fmt.Sprintf("conc seed=%d g=6 n=40 keys=4 thr=%d hot=%d", r.Intn(1<<30), r.Intn(2), hlib.Pick(r, []int{0, 0, 0, 30}))}
 	}
+	if *prop == "C34" && x < 20 {
+		return genFailBatch(r)
+	}
+	if *prop == "C34" && x < 30 {
+		return genEmptyValue(r)
+	}
 	if *prop == "C37" && x < 6 {
 		return []string{fmt.Sprintf("live seed=%d g=6 n=60 thr=1 close=1", r.Intn(1<<30))}
 	}
@@ -504,6 +708,9 @@ func (e *engine) Gen(r *hlib.Rand, tier string) []string {
 	}
 	if *prop == "C37" && x < 22 {
 		return genBoundary(r)
+	}
+	if *prop == "C37" && x < 34 {
+		return genThrottleLive(r)
 	}
 	mbc := hlib.Pick(r, []int{64, 64, 64, 64, 64, 2, 1})
 	mbs := hlib.Pick(r, []int{1 << 20, 1 << 20, 1 << 20, 40, 48, 64})
@@ -640,6 +847,109 @@ func (e *engine) Gen(r *hlib.Rand, tier string) []string {
 	return ops
 }
 
+// genFailBatch: the worker is parked (db.Lock held) after it popped one request; several writers
+// and one request the LSM rejects queue up and form ONE commit batch on release; afterwards
+// every key is read: a write returned nil iff its value is readable.
+func genFailBatch(r *hlib.Rand) []string {
+	ops := []string{fmt.Sprintf("open wbc=%d hot=0 vt=%d", hlib.Pick(r, []int{64, 64, 3, 2}), hlib.Pick(r, []int{1024, 8}))}
+	keys := []string{"6b", "6c", "6d", "6e", "6f", "70"}
+	ops = append(ops, "set 0 "+keys[0]+" 00", "hold", "set 1 "+keys[1]+" 11")
+	n := 2 + r.Intn(4)
+	pos := r.Intn(n)
+	slot := 2
+	var slots []int
+	for i := 0; i < n; i++ {
+		if i == pos {
+			ops = append(ops, fmt.Sprintf("poison %d", slot))
+		} else {
+			k := keys[2+i%4]
+			if r.Chance(20) {
+				ops = append(ops, fmt.Sprintf("del %d %s", slot, keys[0]))
+			} else {
+				ops = append(ops, fmt.Sprintf("set %d %s %02x%02x", slot, k, i+1, r.Intn(256)))
+			}
+		}
+		slots = append(slots, slot)
+		slot++
+	}
+	ops = append(ops, "release", "await 1")
+	for _, s := range slots {
+		ops = append(ops, fmt.Sprintf("await %d", s))
+	}
+	for _, k := range keys {
+		ops = append(ops, "get 0 "+k)
+	}
+	if r.Bool() {
+		ops = append(ops, "set 1 "+keys[2]+" ee", "get 0 "+keys[2], "close")
+	}
+	return ops
+}
+
+// genEmptyValue: zero-length values (and ordinary ones) with memtable rotation + flush and
+// close/reopen between the write and the reads; every key is written once.
+func genEmptyValue(r *hlib.Rand) []string {
+	ops := []string{fmt.Sprintf("open vt=%d", hlib.Pick(r, []int{1024, 8}))}
+	keys := []string{"6b", "6c", "6d", "6e", "6f", "70", "71"}
+	written := []string{}
+	barrier := func() {
+		switch r.Intn(3) {
+		case 0:
+			ops = append(ops, "flush")
+		case 1:
+			ops = append(ops, "reopen")
+		default:
+			ops = append(ops, "close", "reopen")
+		}
+		for _, k := range written {
+			ops = append(ops, "get 0 "+k)
+		}
+	}
+	for i, k := range keys {
+		switch r.Intn(4) {
+		case 0, 1:
+			ops = append(ops, fmt.Sprintf("set 1 %s -", k))
+		case 2:
+			ops = append(ops, fmt.Sprintf("set 1 %s %02x0102030405060708090a", k, i))
+		default:
+			ops = append(ops, fmt.Sprintf("del 1 %s", k))
+		}
+		written = append(written, k)
+		ops = append(ops, "get 0 "+k)
+		if r.Chance(45) {
+			barrier()
+		}
+	}
+	barrier()
+	return ops
+}
+
+// genThrottleLive: real flushes until L0 reaches the throttle's high watermark, writers parked
+// in the throttle loop, one L0 move that hits a manifest write fault, then healthy moves:
+// AdjustThrottle must release the writers, and Close must return.
+func genThrottleLive(r *hlib.Rand) []string {
+	limit := hlib.Pick(r, []int{1, 2, 2, 3})
+	ops := []string{fmt.Sprintf("open l0=%d hot=0", limit)}
+	n := 2*limit + r.Intn(2)
+	for i := 0; i < n; i++ {
+		ops = append(ops, fmt.Sprintf("set 0 %02x%02x %02x", 0x61+i, r.Intn(256), i), "flush")
+		if r.Chance(20) {
+			ops = append(ops, "adjust")
+		}
+	}
+	ops = append(ops, "adjust", "set 1 7a01 aa", "set 2 7a02 bb")
+	for i := 0; i < 1+r.Intn(2); i++ {
+		ops = append(ops, "compact fail")
+		if r.Bool() {
+			ops = append(ops, "adjust")
+		}
+	}
+	ops = append(ops, "drainl0", "adjust", "await 1", "await 2", "get 3 7a01", "get 3 7a02")
+	if r.Bool() {
+		ops = append(ops, "close")
+	}
+	return ops
+}
+
 // genBoundary: writes whose size estimate is exactly / just around the free space of a
 // 64 KiB memtable (value inline), as the first write and after a partial fill: the packing
 // loop of lsm.SetBatch must either write the entry or rotate — and return.
@@ -710,9 +1020,16 @@ func (e *engine) Nontrivial(ops, impl, model, spec []string) bool {
 			closed = true
 		}
 	}
+	if *prop == "C34" {
+		for _, op := range ops {
+			if op == "hold" || op == "flush" || op == "reopen" {
+				return true
+			}
+		}
+	}
 	if *prop == "C37" {
 		for _, op := range ops {
-			if strings.HasPrefix(op, "setfill ") || strings.Contains(op, "mtzero=") {
+			if strings.HasPrefix(op, "setfill ") || strings.Contains(op, "mtzero=") || op == "compact fail" {
 				return true
 			}
 		}
